@@ -61,11 +61,20 @@ def run(v):
                                   "--sessions", 20000 if thorough else 2000], timeout=7200)
     if rc != 0:
         raise common.ToolError("hv c14 failed: " + err[-2000:])
+    # the same through the language server: HarperIgnoreLint taken from a code action, re-publish, far edit
+    trace_ls = os.path.join(wd, "trace_ls.ndjson")
+    rc, out, err = common.run_hv(["ls-ignore", "--out", trace_ls, "--seed", v.seed, "--corpus", corp,
+                                  "--sessions", 400 if thorough else 40], timeout=7200)
+    if rc != 0:
+        raise common.ToolError("hv ls-ignore failed: " + err[-2000:])
+    with open(trace, "a") as f:
+        f.write(open(trace_ls).read())
     v.cov["distinct_nontrivial"] = validate(v, trace, "t")
     v.cov["rule"] = ("sessions: lint a document (corpus sentences, composed documents, hand-picked texts with repeated "
                      "mistakes and quotes), ignore a random visible lint, re-lint, then prepend/append far text or "
                      "export+import the list (core IgnoredLints; in a third of the sessions harper-wasm's "
-                     "ignore_lint/export/clear/import alongside), re-lint, ignore another, re-lint; distinct = distinct "
+                     "ignore_lint/export/clear/import alongside), re-lint, ignore another, re-lint; plus sessions on the real "
+                     "harper-ls Backend where the ignore command comes from a code action; distinct = distinct "
                      "(document, ignored identity)")
     v.assumptions += ["token boundaries used for a lint's neighbourhood come from Harper's own tokenisation"]
     return v.finish()
